@@ -1,4 +1,5 @@
 import Imdlv.Model.Peer
+import Imdlv.Lemmas.Peer
 /-!
 # C11 — metadata fetched from peers is authentic, and honest peers are understood
 
@@ -157,8 +158,295 @@ theorem recv_frame (fuel : Nat) (m : Msg) (rest : Bytes) (hlen : ∀ p, m.payloa
     simp
     cases m; simp_all
 
+/-! ## honest peers are understood
+
+An honest peer (BEP 3/9/10), in the byte-stream model: after its handshake it sends an extension
+handshake announcing `metadata_size = |served|` and some `ut_metadata` id, then the pieces
+`0, 1, …` of `served` (each at most 16 KiB, the last one shorter or full) as `data` messages, with
+any number of keep-alives, ordinary messages and messages of other extensions before, between and
+after them. TCP segmentation is invisible to a byte-stream reader, so it does not appear. -/
+
+/-- the `k`-th metadata piece of `served` -/
+def chunk (served : Bytes) (k : Nat) : Bytes := (served.drop (k * Consts.utPieceLength)).take Consts.utPieceLength
+
+def extMsg (ext : Nat) (body : Bytes) : Msg := { id := UInt8.ofNat Consts.extendedFlavour, payload := some (UInt8.ofNat ext :: body) }
+
+/-- what the peer sends for pieces `i, i+1, …, i+n-1`: `noise k` before piece `k`, whose message body is `body k` -/
+def piecesFrom (noise : Nat → List Item) (body : Nat → Bytes) : Nat → Nat → Bytes
+  | 0, _ => []
+  | n + 1, i => wire (noise i) ++ frame (extMsg Consts.ownUtMetadataId (body i)) ++ piecesFrom noise body n (i + 1)
+
+/-- rounds of the fetch loop needed for those pieces -/
+def cost (noise : Nat → List Item) : Nat → Nat → Nat
+  | 0, _ => 0
+  | n + 1, i => msgCount (noise i) + 1 + cost noise n (i + 1)
+
+theorem extMsg_framed (ext : Nat) (body : Bytes) (h : body.length + 2 < 2 ^ 32) : Framed (extMsg ext body) := by
+  intro p hp
+  simp only [extMsg, Option.some.injEq] at hp
+  subst hp
+  simp only [List.length_cons]; omega
+
+theorem take_succ_chunk (served : Bytes) (k : Nat) :
+    served.take (k * Consts.utPieceLength) ++ chunk served k = served.take ((k + 1) * Consts.utPieceLength) := by
+  unfold chunk
+  rw [Nat.add_mul, Nat.one_mul, List.take_add]
+
+/-- one data message, received in the state the honest exchange has reached -/
+theorem step_data (R : Readers ι) (H : Bytes → δ) (target : δ) (served : Bytes) (info : ι) (h : ExtHandshake)
+    (hsize : h.metadataSize = some served.length)
+    (hinfo : R.info served = some info) (hhash : H (R.serialize info) = target)
+    (k : Nat) (hk : k * Consts.utPieceLength < served.length)
+    (c : Client) (hbuf : c.buf = served.take (k * Consts.utPieceLength)) (hhs : c.hs = some h)
+    (body : Bytes) (ts : Option Nat) (off : Nat)
+    (hut : R.utMsg body = some ({ msgType := 1, piece := k, totalSize := ts }, off)) (hdata : body.drop off = chunk served k) :
+    step R H target c (extMsg Consts.ownUtMetadataId body) =
+      if served.length ≤ (k + 1) * Consts.utPieceLength then .done info { c with buf := served }
+      else .continue { c with buf := served.take ((k + 1) * Consts.utPieceLength), requests := c.requests ++ [k + 1] } := by
+  have hP : Consts.utPieceLength = 16384 := by decide
+  have hflav : (UInt8.ofNat Consts.extendedFlavour).toNat = Consts.extendedFlavour := by decide
+  have hown : (UInt8.ofNat Consts.ownUtMetadataId).toNat = Consts.ownUtMetadataId := by decide
+  have hown0 : Consts.ownUtMetadataId ≠ 0 := by decide
+  have hbl : c.buf.length = k * Consts.utPieceLength := by
+    rw [hbuf, List.length_take]; omega
+  have hpiece : c.buf.length / Consts.utPieceLength = k := by
+    rw [hbl, hP]; omega
+  have hchunk_len : (chunk served k).length ≤ Consts.utPieceLength := by
+    unfold chunk; rw [List.length_take]; omega
+  unfold step extMsg
+  simp only [hflav, ne_eq, not_true_eq_false, if_false, hown, hown0, hhs, hsize, hut, hpiece, hdata]
+  try simp only [show ¬ ((1 : Nat) ≠ 1) from by simp, if_false, show ¬ (k ≠ k) from by simp]
+  have hnot : ¬ (chunk served k).length > Consts.utPieceLength := by omega
+  simp only [hnot, if_false]
+  rw [hbuf, take_succ_chunk]
+  by_cases hlast : served.length ≤ (k + 1) * Consts.utPieceLength
+  · have hfull : served.take ((k + 1) * Consts.utPieceLength) = served := List.take_of_length_le hlast
+    simp only [hlast, if_true, hfull, hinfo, hhash]
+  · have hlen : (served.take ((k + 1) * Consts.utPieceLength)).length = (k + 1) * Consts.utPieceLength := by
+      rw [List.length_take]; omega
+    have hne : ¬ (served.take ((k + 1) * Consts.utPieceLength)).length = served.length := by omega
+    have hlt : (served.take ((k + 1) * Consts.utPieceLength)).length < served.length := by omega
+    simp only [hlast, if_false, hne, hlt, if_true]
+
+/-- the data phase: from the state reached after `i` correct pieces, the remaining pieces — with
+arbitrary ignorable traffic in between — complete the fetch -/
+theorem pieces_complete (R : Readers ι) (H : Bytes → δ) (target : δ) (served : Bytes) (info : ι) (h : ExtHandshake)
+    (hsize : h.metadataSize = some served.length)
+    (hinfo : R.info served = some info) (hhash : H (R.serialize info) = target)
+    (noise : Nat → List Item) (body : Nat → Bytes) (ts : Nat → Option Nat) (off : Nat → Nat)
+    (hnoise : ∀ k, Noise (noise k))
+    (hframed : ∀ k, (body k).length + 2 < 2 ^ 32)
+    (hut : ∀ k, R.utMsg (body k) = some ({ msgType := 1, piece := k, totalSize := ts k }, off k))
+    (hdata : ∀ k, (body k).drop (off k) = chunk served k) :
+    ∀ (n i : Nat) (c : Client) (tail : Bytes) (F : Nat),
+      0 < n → (i + n - 1) * Consts.utPieceLength < served.length → served.length ≤ (i + n) * Consts.utPieceLength →
+      c.buf = served.take (i * Consts.utPieceLength) → c.hs = some h →
+      fetchLoop R H target (cost noise n i + F) c (piecesFrom noise body n i ++ tail)
+        = .ok info (c.requests ++ (List.range' (i + 1) (n - 1))) := by
+  intro n
+  induction n with
+  | zero => intro i c tail F h0; omega
+  | succ n ih =>
+    intro i c tail F _ hlo hhi hbuf hhs
+    have hP : Consts.utPieceLength = 16384 := by decide
+    have hk : i * Consts.utPieceLength < served.length := by
+      have : i * Consts.utPieceLength ≤ (i + (n + 1) - 1) * Consts.utPieceLength := Nat.mul_le_mul_right _ (by omega)
+      omega
+    simp only [piecesFrom, cost, List.append_assoc]
+    have e : msgCount (noise i) + 1 + cost noise n (i + 1) + F = msgCount (noise i) + ((cost noise n (i + 1) + F) + 1) := by omega
+    rw [e, fetchLoop_noise R H target c (noise i) (hnoise i), fetchLoop_unfold,
+      recvC_frame _ _ (extMsg_framed _ _ (hframed i))]
+    simp only [step_data R H target served info h hsize hinfo hhash i hk c hbuf hhs (body i) (ts i) (off i) (hut i) (hdata i)]
+    by_cases hlast : served.length ≤ (i + 1) * Consts.utPieceLength
+    · -- this was the last piece
+      have hn0 : n = 0 := by
+        apply Classical.byContradiction
+        intro hne
+        have : (i + 1) * Consts.utPieceLength ≤ (i + (n + 1) - 1) * Consts.utPieceLength := Nat.mul_le_mul_right _ (by omega)
+        omega
+      subst hn0
+      simp [hlast]
+    · simp only [hlast, if_false]
+      have hnpos : 0 < n := by
+        apply Classical.byContradiction
+        intro hne
+        have : n = 0 := by omega
+        subst this
+        exact hlast hhi
+      have := ih (i + 1) { c with buf := served.take ((i + 1) * Consts.utPieceLength), requests := c.requests ++ [i + 1] } tail F hnpos
+        (by have : i + 1 + n - 1 = i + (n + 1) - 1 := by omega
+            rw [this]; exact hlo)
+        (by have : i + 1 + n = i + (n + 1) := by omega
+            rw [this]; exact hhi)
+        rfl hhs
+      rw [this]
+      simp only [List.append_assoc, List.singleton_append]
+      congr 1
+      have : n + 1 - 1 = (n - 1) + 1 := by omega
+      rw [this, List.range'_succ]
+
+/-- number of metadata pieces -/
+def pieceCount (served : Bytes) : Nat := (served.length + Consts.utPieceLength - 1) / Consts.utPieceLength
+
+/-- **Honest peers are understood**: for every non-empty info dictionary that the typed reader
+accepts and re-serialises to the hash of the link, every metadata size (one to many 16 KiB pieces,
+exact multiples included), every extension-id assignment (the peer's own ids never appear in what it
+sends to us, ours is fixed), and every interleaving of keep-alives, ordinary messages and foreign
+extension messages before, between and after the relevant ones, the fetch succeeds, returns that
+dictionary, and has requested exactly the pieces `0 … n-1` in order. -/
+theorem honest_complete (R : Readers ι) (H : Bytes → δ) (target : δ) (served : Bytes) (info : ι) (h : ExtHandshake)
+    (hpos : 0 < served.length)
+    (hsize : h.metadataSize = some served.length) (hid : h.utMetadataId.isSome = true)
+    (hinfo : R.info served = some info) (hhash : H (R.serialize info) = target)
+    (pre : List Item) (hsBody : Bytes) (hpre : Noise pre) (hhsFramed : hsBody.length + 2 < 2 ^ 32)
+    (hhs : R.handshake hsBody = some h)
+    (noise : Nat → List Item) (body : Nat → Bytes) (ts : Nat → Option Nat) (off : Nat → Nat)
+    (hnoise : ∀ k, Noise (noise k))
+    (hframed : ∀ k, (body k).length + 2 < 2 ^ 32)
+    (hut : ∀ k, R.utMsg (body k) = some ({ msgType := 1, piece := k, totalSize := ts k }, off k))
+    (hdata : ∀ k, (body k).drop (off k) = chunk served k)
+    (tail : Bytes) (F : Nat) :
+    fetchLoop R H target (msgCount pre + 1 + cost noise (pieceCount served) 0 + F) Client.init
+        (wire pre ++ frame (extMsg 0 hsBody) ++ piecesFrom noise body (pieceCount served) 0 ++ tail)
+      = .ok info (List.range (pieceCount served)) := by
+  have hP : Consts.utPieceLength = 16384 := by decide
+  have hflav : (UInt8.ofNat Consts.extendedFlavour).toNat = Consts.extendedFlavour := by decide
+  have hn : 0 < pieceCount served := by unfold pieceCount; rw [hP]; omega
+  have hlo : (0 + pieceCount served - 1) * Consts.utPieceLength < served.length := by
+    unfold pieceCount; rw [hP]; omega
+  have hhi : served.length ≤ (0 + pieceCount served) * Consts.utPieceLength := by
+    unfold pieceCount; rw [hP]; omega
+  have e : msgCount pre + 1 + cost noise (pieceCount served) 0 + F = msgCount pre + ((cost noise (pieceCount served) 0 + F) + 1) := by omega
+  simp only [List.append_assoc]
+  rw [e, fetchLoop_noise R H target Client.init pre hpre, fetchLoop_unfold, recvC_frame _ _ (extMsg_framed _ _ hhsFramed)]
+  -- the extension handshake
+  have hstep : step R H target Client.init (extMsg 0 hsBody) = .continue { Client.init with hs := some h, requests := [0] } := by
+    unfold step extMsg
+    have hz : (UInt8.ofNat 0).toNat = 0 := by decide
+    simp only [hflav, ne_eq, not_true_eq_false, if_false, hz, if_true, hhs, hsize, Option.isNone_some, Bool.false_eq_true]
+    have : h.utMetadataId.isNone = false := by
+      cases hu : h.utMetadataId with
+      | none => simp [hu] at hid
+      | some _ => rfl
+    simp [this, Client.init]
+  simp only [hstep]
+  have := pieces_complete R H target served info h hsize hinfo hhash noise body ts off hnoise hframed hut hdata
+    (pieceCount served) 0 { Client.init with hs := some h, requests := [0] } tail F hn hlo hhi (by simp [Client.init]) rfl
+  rw [this]
+  congr 1
+  simp only [List.singleton_append]
+  have : pieceCount served = (pieceCount served - 1) + 1 := by omega
+  rw [List.range_eq_range', this, List.range'_succ]
+  simp
+
+/-- the honest handshake passes -/
+theorem honest_handshake_ok (t : Bytes) (reserved peerId : Bytes) (ht : t.length = 20) (hr : reserved.length = 8)
+    (hbit : reserved.getD 5 0 &&& UInt8.ofNat Consts.extensionBit ≠ 0) (hp : peerId.length = 20) :
+    checkHandshake t (Consts.peerHeader ++ reserved ++ t ++ peerId) = .ok () := by
+  have hh : Consts.peerHeader.length = 20 := by decide
+  unfold checkHandshake
+  have h1 : ¬ (Consts.peerHeader ++ reserved ++ t ++ peerId).length < Consts.peerHandshakeLen := by
+    simp only [List.length_append, hh, hr, ht, hp]; decide
+  have h2 : (Consts.peerHeader ++ reserved ++ t ++ peerId).take 20 = Consts.peerHeader := by
+    rw [List.append_assoc, List.append_assoc, List.take_append_of_le_length (by omega)]
+    exact List.take_of_length_le (by omega)
+  have h3 : ((Consts.peerHeader ++ reserved ++ t ++ peerId).drop 28).take 20 = t := by
+    have : (Consts.peerHeader ++ reserved ++ t ++ peerId).drop 28 = t ++ peerId := by
+      rw [List.append_assoc (Consts.peerHeader ++ reserved)]
+      rw [List.drop_append_of_le_length (by simp [hh, hr])]
+      have : (Consts.peerHeader ++ reserved).drop 28 = [] := List.drop_of_length_le (by simp [hh, hr])
+      rw [this]; rfl
+    rw [this, List.take_append_of_le_length (by omega)]
+    exact List.take_of_length_le (by omega)
+  have h4 : ((Consts.peerHeader ++ reserved ++ t ++ peerId).drop 20).take 8 = reserved := by
+    have : (Consts.peerHeader ++ reserved ++ t ++ peerId).drop 20 = reserved ++ (t ++ peerId) := by
+      rw [List.append_assoc, List.append_assoc, List.drop_append_of_le_length (by omega)]
+      have : Consts.peerHeader.drop 20 = [] := List.drop_of_length_le (by omega)
+      rw [this]; rfl
+    rw [this, List.take_append_of_le_length (by omega)]
+    exact List.take_of_length_le (by omega)
+  simp only [h1, if_false, h2, ne_eq, not_true_eq_false, h3, h4]
+  simp only [hbit, if_false]
+
+theorem frame_length_ge (m : Msg) : 5 ≤ (frame m).length := by
+  unfold frame; cases m.payload <;> simp [toBE4]
+
+theorem cost_le (noise : Nat → List Item) (body : Nat → Bytes) : ∀ n i, 5 * cost noise n i ≤ (piecesFrom noise body n i).length := by
+  intro n
+  induction n with
+  | zero => intro i; simp [cost, piecesFrom]
+  | succ n ih =>
+    intro i
+    simp only [cost, piecesFrom, List.length_append]
+    have h1 := wire_length_ge (noise i)
+    have h2 := frame_length_ge (extMsg Consts.ownUtMetadataId (body i))
+    have h3 := ih (i + 1)
+    omega
+
+/-- **Honest peers are understood, whole connection**: the same for `fetch` itself — the peer's
+68-byte handshake followed by the honest stream and anything after it — with the fuel `fetch` uses. -/
+theorem honest_fetch (R : Readers ι) (H : Bytes → δ) (H20 : δ → Bytes) (target : δ) (served : Bytes) (info : ι) (h : ExtHandshake)
+    (reserved peerId : Bytes) (ht : (H20 target).length = 20) (hr : reserved.length = 8)
+    (hbit : reserved.getD 5 0 &&& UInt8.ofNat Consts.extensionBit ≠ 0) (hp : peerId.length = 20)
+    (hpos : 0 < served.length)
+    (hsize : h.metadataSize = some served.length) (hid : h.utMetadataId.isSome = true)
+    (hinfo : R.info served = some info) (hhash : H (R.serialize info) = target)
+    (pre : List Item) (hsBody : Bytes) (hpre : Noise pre) (hhsFramed : hsBody.length + 2 < 2 ^ 32)
+    (hhs : R.handshake hsBody = some h)
+    (noise : Nat → List Item) (body : Nat → Bytes) (ts : Nat → Option Nat) (off : Nat → Nat)
+    (hnoise : ∀ k, Noise (noise k))
+    (hframed : ∀ k, (body k).length + 2 < 2 ^ 32)
+    (hut : ∀ k, R.utMsg (body k) = some ({ msgType := 1, piece := k, totalSize := ts k }, off k))
+    (hdata : ∀ k, (body k).drop (off k) = chunk served k)
+    (tail : Bytes) :
+    fetch R H H20 target
+        ((Consts.peerHeader ++ reserved ++ H20 target ++ peerId) ++
+          (wire pre ++ frame (extMsg 0 hsBody) ++ piecesFrom noise body (pieceCount served) 0 ++ tail))
+      = .ok info (List.range (pieceCount served)) := by
+  have hh : Consts.peerHeader.length = 20 := by decide
+  have hlen68 : (Consts.peerHeader ++ reserved ++ H20 target ++ peerId).length = Consts.peerHandshakeLen := by
+    simp only [List.length_append, hh, hr, ht, hp]; decide
+  unfold fetch
+  rw [List.take_append_of_le_length (by omega), List.take_of_length_le (by omega),
+    honest_handshake_ok (H20 target) reserved peerId ht hr hbit hp]
+  simp only
+  rw [List.drop_append_of_le_length (by omega), List.drop_of_length_le (by omega), List.nil_append]
+  -- enough fuel: every message occupies at least five bytes
+  generalize hS : wire pre ++ frame (extMsg 0 hsBody) ++ piecesFrom noise body (pieceCount served) 0 ++ tail = S
+  have hneed : msgCount pre + 1 + cost noise (pieceCount served) 0 ≤ S.length := by
+    rw [← hS]
+    simp only [List.length_append]
+    have h1 := wire_length_ge pre
+    have h2 := frame_length_ge (extMsg 0 hsBody)
+    have h3 := cost_le noise body (pieceCount served) 0
+    omega
+  have hfuel : ((Consts.peerHeader ++ reserved ++ H20 target ++ peerId) ++ S).length + 1 =
+      (msgCount pre + 1 + cost noise (pieceCount served) 0 + 0) +
+        (((Consts.peerHeader ++ reserved ++ H20 target ++ peerId) ++ S).length + 1 - (msgCount pre + 1 + cost noise (pieceCount served) 0)) := by
+    simp only [List.length_append] at hneed ⊢
+    omega
+  rw [hfuel]
+  apply fetchLoop_mono
+  rw [← hS]
+  exact honest_complete R H target served info h hpos hsize hid hinfo hhash pre hsBody hpre hhsFramed hhs noise body ts off
+    hnoise hframed hut hdata tail 0
+
 /-! ## Non-vacuity -/
 example : recv 5 ([0,0,0,0] ++ [0,0,0,0] ++ [0,0,0,3, 20, 7, 8] ++ [9]) = some (⟨20, some [7, 8]⟩, [9]) := by
+  decide +kernel
+
+/-- the hypotheses of `honest_complete` are satisfiable: a three-byte dictionary served in one piece,
+behind a keep-alive, a choke and a foreign extension message, with trivial readers -/
+def toyReaders : Readers Bytes :=
+  { handshake := fun _ => some { metadataSize := some 3, utMetadataId := some 7 },
+    utMsg := fun _ => some ({ msgType := 1, piece := 0, totalSize := none }, 0),
+    info := fun b => some b, serialize := fun b => b }
+example :
+    (match fetchLoop toyReaders (fun b => b) [1, 2, 3] 10 Client.init
+      (wire [.keepAlive, .msg ⟨0, none⟩, .msg ⟨20, some [9, 1]⟩] ++ frame (extMsg 0 [100]) ++
+        (wire [.keepAlive] ++ frame (extMsg Consts.ownUtMetadataId [1, 2, 3])) ++ [0, 0]) with
+      | .ok i r => i == [1, 2, 3] && r == [0]
+      | .error _ _ => false) = true := by
   decide +kernel
 
 end Imdlv.C11
